@@ -563,6 +563,16 @@ def render_fn(item, cut, counts):
         _, rx, rep, _ = opts["sigsub"].split("/", 3)
         sig, n = re.subn(rx, rep, sig)
         counts["sigsub"] = counts.get("sigsub", 0) + n
+    if opts.get("external_body") or item.get("imported_from"):
+        # contract only: the body is not part of this unit (assumed here / proved in the unit it is imported from), so an
+        # edit inside it can neither lose an anchor nor introduce an unsupported construct in THIS unit
+        sig = apply_rewrites(sig, counts)
+        if re.search(r"\bconst\s+fn\b", sig):
+            # rustc evaluates const fns while type checking (array lengths, capacity constants): keep the body text
+            kept = apply_rewrites(body, counts)
+        else:
+            kept = "{ unimplemented!() } // body not part of this unit"
+        return sig + "\n" + (item["sig"] + "\n" if item["sig"].strip() else "") + kept
     # loops first (positions refer to the unmodified body)
     body_clean = _strip_tokens(body)
     inserts = []  # (pos, text)
